@@ -760,3 +760,5 @@ M('sweep-bridge-raw-data-when-switched-off', ['C16'], BR, "            if self._
 M('sweep-bridge-raw-data-unconditional', ['C16'], BR, "            if self._export_raw_data and hasattr(self._lineage, '_last_frame_data'):", "            if hasattr(self._lineage, '_last_frame_data'):", ['C16.R10'])
 M('sweep-rolllog-refresh-without-rescan', ['C13'], RL, "        self.scan_logfiles()\n\n        close    = True\n", "        close    = True\n", ['C13.R5'])
 M('sweep-rolllog-vanished-file-listed-anyway', ['C13', 'C14'], RL, "                except FileNotFoundError:  # pruned by the writer between the listing and this look at it\n                    continue\n", "                except FileNotFoundError:  # pruned by the writer between the listing and this look at it\n                    pass\n", ['C13.R8', 'C14.R7'])
+M('zmq-D77-shape-direct-bind', ['C15'], Z, "            attach(pub.bind, pub_addr)\n", "            pub.bind(pub_addr)\n", ['C15.R6'])
+M('zmq-attach-keeps-library-text', ['C15'], Z, "raise zmq.ZMQError(exc.errno, f'{zmq.strerror(exc.errno)} (addr={hide_uri_users_and_pwds(addr)!r})') from None", "raise zmq.ZMQError(exc.errno, f'{exc} (addr={hide_uri_users_and_pwds(addr)!r})') from None", ['C15.R6'])
